@@ -285,12 +285,21 @@ def evaluation_consumers(P, rep, prefix):
     value: every call of the evaluator and of the conversions built on it has its Err inspected (`?` or a match) and the Err side leads to
     an Err of the caller — never to a default value (`unwrap_or`, `.ok()`, `if let Ok`) with which assembling goes on"""
     n = 0
+    # the evaluator and the conversions built on it, by role rather than by name: methods of the expression, operand and instruction-operand
+    # types that answer with a Result
+    cg = P.callgraph()
+    conv = set()
+    for k in P.body:
+        if re.match(r"^(expr::Expr|instruction::InstructionOps|directive::Operand)::[^:{]+$|GetData>::[^:{]+$", k) and "#promoted" not in k:
+            rt = P.tys(k, P.body[k]["locals"][0]["ty"])
+            if k == "expr::Expr::run" or (rt.startswith("std::result::Result<") and "failure::Error" in rt):
+                conv.add(k)
     for k in sorted(P.body):
         if k.startswith("bin::") or "#promoted" in k:
             continue
         b = P.body[k]
         for bb, t, name, tg in P.call_sites(k):
-            hit = [x for x in tg if EVAL.search(x)]
+            hit = [x for x in tg if EVAL.search(x) or x in conv]
             if not hit or b["blocks"][bb]["cleanup"]:
                 continue
             n += 1
